@@ -849,6 +849,7 @@ class Ref(Field):
         slots = Field._compile_impl(self, position, fields, bisturi_conf)
 
         self.position = position
+        self.bisturi_conf = bisturi_conf
 
         prototype = self.prototype
         if isinstance(prototype, Packet):
@@ -906,7 +907,9 @@ class Ref(Field):
         if isinstance(referenced, Field):
             referenced.field_name = self.field_name
             referenced._compile(
-                position=self.position, fields=[], bisturi_conf={}
+                position=self.position,
+                fields=[],
+                bisturi_conf=self.bisturi_conf
             )
             referenced.init(pkt, {})
 
@@ -934,7 +937,9 @@ class Ref(Field):
         if isinstance(referenced, Field):
             referenced.field_name = self.field_name
             referenced._compile(
-                position=self.position, fields=[], bisturi_conf={}
+                position=self.position,
+                fields=[],
+                bisturi_conf=self.bisturi_conf
             )
             #referenced.init(pkt, {})
 
